@@ -36,7 +36,13 @@ class AnsiFormatter(Formatter):
         if style is not None:
             self._formatter._style_stack.push(StyleConverter.convert(style))
 
-        formatted = self._formatter.colorize(string)
+        if style is not None and not self._formatter.FULL_TAG_REGEX.search(string):
+            # Pastel returns text without any tag as is, ignoring the style stack
+            formatted = self._formatter._apply_current_style(
+                string.replace("\\<", "<")
+            )
+        else:
+            formatted = self._formatter.colorize(string)
 
         if style is not None:
             self._formatter._style_stack.pop()
